@@ -409,7 +409,13 @@ func FailingInsert(rt *rapid.T, t *model.Table) model.Stmt {
 // those two are refused is the implementation's choice; callers drop the case
 // when they are accepted).
 func FailingStmt(rt *rapid.T, db *model.DB, t *model.Table) model.Stmt {
-	switch rapid.IntRange(0, 5).Draw(rt, "failkind") {
+	switch rapid.IntRange(0, 6).Draw(rt, "failkind") {
+	case 6:
+		// CREATE DATABASE of the database the checks work in ("d1", see props.DBName), or of one of
+		// the idle ones: it exists
+		st := NewStyle(rt)
+		name := rapid.SampledFrom([]string{"d1", "d1", "a_idle", "D1"}).Draw(rt, "faildb")
+		return model.Stmt{Kind: "create_database", Table: name, Fails: true, SQL: st.KW("CREATE") + st.SP() + st.KW("DATABASE") + st.SP() + name + st.End()}
 	case 0:
 		s := model.Stmt{Kind: "create", Table: t.Name, Cols: Columns(rt, 3), Fails: true}
 		s.SQL = RenderStmt(NewStyle(rt), s)
